@@ -1,5 +1,27 @@
 (* Lock/Model.v — host/contracts/lock.go (the `locker`, Manager.Lock, Manager.Unlock,
-   Manager.LockV2Contract) as an executable transition system over caller sessions.
+   Manager.LockV2Contract) and host/contracts/integrity.go (Manager.CheckIntegrity,
+   Manager.V2CheckIntegrity: the two other users of the contract lock inside the manager) as an
+   executable transition system over caller sessions.
+
+   Every user of the lock in host/contracts (non-test) is a wrapper around locker.Lock /
+   locker.Unlock and appears here as a path through the pcs of a session:
+     locker.Lock / locker.Unlock   ALock .. (Waiting ..) Holding; AUnlock
+     Manager.Lock (lock.go:83)     the same, or Releasing + AErrUnlock when the contract check fails
+     Manager.LockV2Contract (114)  the same (no context: never cancelled); the returned closure is AUnlock
+     Manager.Unlock (108)          AUnlock
+     Manager.CheckIntegrity (integrity.go:65), Manager.V2CheckIntegrity (154)
+                                   ACheck .. (Waiting ..) then either Releasing + AErrUnlock (the
+                                   Manager-level lock call fails and has given the lock back; the check
+                                   returns before its defer is registered) or Checking (body) ->
+                                   Deferred r (returning r) -> ADeferUnlock (the deferred
+                                   cm.Unlock(id) / unlock()), once, on the error returns and on the
+                                   normal return alike.
+   The goroutine a successful check starts (integrity.go:101 / 190) reads sectors and registers
+   alerts; it never touches cm.locks and is not modelled.
+   Every release step runs [unlock_cs], the code of locker.Unlock as it is: it looks the id up in
+   the table whoever calls it and panics when there is no entry.  That a wrapper only ever runs it
+   while it holds the lock is a theorem (Proofs2.v, unlock_only_by_holder), and [stray_unlock]
+   below is the same code run by a session that does not hold the lock.
 
    Granularity: one transition per critical section of the Go code, i.e. per maximal piece of
    code that runs either under `lr.mu` or is a single channel operation / select outcome.
@@ -30,6 +52,9 @@ Definition addr_leb (a b : addr) : bool :=
 Record lockobj := { ln : Z; ltok : Z }.
 Definition chan_cap : Z := 1.   (* lock.go:58  make(chan struct{}, 1) *)
 
+(* what the last call of the session returned *)
+Inductive ret := RNone | RNil | RCtxErr | RMgrErr.
+
 Inductive pc :=
 | Idle
 | Waiting (i : cid) (a : addr)     (* lock.go:66-67 done (n++, mu released); in the select *)
@@ -38,17 +63,23 @@ Inductive pc :=
 | Releasing (i : cid)              (* Manager.Lock / LockV2Contract: locks.Lock returned nil, the
                                       contract lookup / isGoodForModification failed, about to
                                       call cm.locks.Unlock(id) on the error path (l.96,99,128) *)
+| Checking (i : cid) (v : bool)    (* CheckIntegrity / V2CheckIntegrity: cm.Lock / LockV2Contract returned
+                                      nil, `defer cm.Unlock(id)` / `defer unlock()` is registered
+                                      (integrity.go:72,161); the body runs: getSectorRoots, the root
+                                      count and Merkle root checks (v: both will pass), then alert
+                                      and `go func` *)
+| Deferred (i : cid) (r : ret)     (* the check is returning r (integrity.go:78,80,148 / 167,169,237); its
+                                      deferred release of the lock is about to run *)
 | Blocked (i : cid) (a : addr)     (* Unlock: `l.ch <- struct{}{}` on a full channel, lr.mu held *)
 | Panicked.                        (* Unlock: panic("unlocking unheld lock") *)
-
-(* what the last call of the session returned *)
-Inductive ret := RNone | RNil | RCtxErr | RMgrErr.
 
 Record thread := {
   tpc   : pc;
   tdone : bool;   (* the ctx of the pending Lock call is cancelled *)
   tbad  : bool;   (* Manager-level call whose contract check will fail (missing contract,
                      not good for modification); false for a raw locker call *)
+  tchk  : option bool;  (* the pending call is CheckIntegrity / V2CheckIntegrity; Some v: the
+                           root checks of its body will pass (v) or make it return an error *)
   tret  : ret }.
 
 Record state := {
@@ -99,15 +130,20 @@ Fixpoint hset (a : addr) (o : lockobj) (h : list (addr * lockobj)) : list (addr 
 
 (** * Thread helpers *)
 Definition with_pc (th : thread) (p : pc) : thread :=
-  {| tpc := p; tdone := tdone th; tbad := tbad th; tret := tret th |}.
+  {| tpc := p; tdone := tdone th; tbad := tbad th; tchk := tchk th; tret := tret th |}.
 (* the flags only matter while the call is waiting; they are cleared when it ends *)
 Definition mk_idle (th : thread) (r : ret) : thread :=
-  {| tpc := Idle; tdone := false; tbad := false; tret := r |}.
+  {| tpc := Idle; tdone := false; tbad := false; tchk := None; tret := r |}.
 (* locks.Lock returned nil: a raw call / a Manager call on a good contract now holds the lock
-   and returns; a Manager call on a bad contract goes to its error path *)
+   and returns; a Manager call on a bad contract goes to its error path (also when it was made
+   by an integrity check, which then returns the error without having deferred anything); an
+   integrity check on a good contract registers its deferred release and runs its body *)
 Definition acquired (th : thread) (i : cid) : thread :=
-  if tbad th then {| tpc := Releasing i; tdone := false; tbad := false; tret := tret th |}
-  else {| tpc := Holding i; tdone := false; tbad := false; tret := RNil |}.
+  if tbad th then {| tpc := Releasing i; tdone := false; tbad := false; tchk := None; tret := tret th |}
+  else match tchk th with
+       | None => {| tpc := Holding i; tdone := false; tbad := false; tchk := None; tret := RNil |}
+       | Some v => {| tpc := Checking i v; tdone := false; tbad := false; tchk := None; tret := tret th |}
+       end.
 
 Definition is_blocked (p : pc) : bool := match p with Blocked _ _ => true | _ => false end.
 (* lr.mu is free unless some Unlock is stuck in its send while holding it *)
@@ -121,6 +157,7 @@ Definition set_th (s : state) (t : nat) (th : thread) : state :=
    progress, taken by the Go scheduler on its own. *)
 Inductive action :=
 | ALock (t : nat) (i : cid) (done bad : bool)  (* call Lock / Manager.Lock / LockV2Contract *)
+| ACheck (t : nat) (i : cid) (done bad ok : bool) (* call CheckIntegrity / V2CheckIntegrity *)
 | ALockRefused (t : nat)                       (* Manager call refused by the closed thread group *)
 | ACtxDone (t : nat)                           (* the waiter's context ends *)
 | AUnlock (t : nat)                            (* the holder calls Unlock *)
@@ -128,17 +165,20 @@ Inductive action :=
 | ACancelChosen (t : nat)                      (* select: case <-ctx.Done() *)
 | ACancelCommit (t : nat)                      (* l.70-75 *)
 | AErrUnlock (t : nat)                         (* Manager error path: cm.locks.Unlock(id) *)
+| ABody (t : nat)                              (* integrity check: the body up to its return statement *)
+| ADeferUnlock (t : nat)                       (* integrity check: the deferred cm.Unlock(id) / unlock() *)
 | ASendDone (t : nat).                         (* a blocked send completes *)
 
 Definition act_tid (a : action) : nat :=
   match a with
-  | ALock t _ _ _ | ALockRefused t | ACtxDone t | AUnlock t | ARecv t | ACancelChosen t
-  | ACancelCommit t | AErrUnlock t | ASendDone t => t
+  | ALock t _ _ _ | ACheck t _ _ _ _ | ALockRefused t | ACtxDone t | AUnlock t | ARecv t | ACancelChosen t
+  | ACancelCommit t | AErrUnlock t | ABody t | ADeferUnlock t | ASendDone t => t
   end.
 
 Definition internal (a : action) : bool :=
   match a with
-  | ARecv _ | ACancelChosen _ | ACancelCommit _ | AErrUnlock _ | ASendDone _ => true
+  | ARecv _ | ACancelChosen _ | ACancelCommit _ | AErrUnlock _ | ABody _ | ADeferUnlock _
+  | ASendDone _ => true
   | _ => false
   end.
 
@@ -170,11 +210,32 @@ Definition unlock_cs (s : state) (t : nat) (th : thread) (i : cid) (r : ret) : o
                     tbl := tbl s;
                     heap := hset a {| ln := n'; ltok := (ltok o + 1)%Z |} (heap s) |}
           else                                                     (* l.44, buffer full: blocks with lr.mu held *)
-            Some {| ths := upd (ths s) t {| tpc := Blocked i a; tdone := false; tbad := false; tret := r |};
+            Some {| ths := upd (ths s) t {| tpc := Blocked i a; tdone := false; tbad := false; tchk := None; tret := r |};
                     tbl := tbl s;
                     heap := hset a {| ln := n'; ltok := ltok o |} (heap s) |}
       end
   end.
+
+(* lock.go:51-66, the part of Lock under lr.mu, for a call described by [th0] (pc Idle, the
+   flags of the call) *)
+Definition lock_call (s : state) (t : nat) (th0 : thread) (i : cid) : option state :=
+  if mutex_free s then
+    match tlookup i (tbl s) with
+    | None =>                                          (* l.53-63: fast path; ctx is not consulted *)
+        let a := (i, fresh_slot i s) in
+        Some {| ths := upd (ths s) t (acquired th0 i);
+                tbl := tset i a (tbl s);
+                heap := hset a {| ln := 1; ltok := 0 |} (heap s) |}
+    | Some a =>                                        (* l.65-66: enqueue *)
+        match hget a (heap s) with
+        | None => Some (set_th s t (with_pc th0 Panicked))
+        | Some o =>
+            Some {| ths := upd (ths s) t (with_pc th0 (Waiting i a));
+                    tbl := tbl s;
+                    heap := hset a {| ln := (ln o + 1)%Z; ltok := ltok o |} (heap s) |}
+        end
+    end
+  else None.
 
 Definition step (s : state) (a : action) : option state :=
   match a with
@@ -182,25 +243,16 @@ Definition step (s : state) (a : action) : option state :=
       match nth_error (ths s) t with
       | Some th =>
           match tpc th with
-          | Idle =>
-              if mutex_free s then
-                let th0 := {| tpc := Idle; tdone := d; tbad := b; tret := RNone |} in
-                match tlookup i (tbl s) with
-                | None =>                                          (* l.53-63: fast path; ctx is not consulted *)
-                    let a := (i, fresh_slot i s) in
-                    Some {| ths := upd (ths s) t (acquired th0 i);
-                            tbl := tset i a (tbl s);
-                            heap := hset a {| ln := 1; ltok := 0 |} (heap s) |}
-                | Some a =>                                        (* l.65-66: enqueue *)
-                    match hget a (heap s) with
-                    | None => Some (set_th s t (with_pc th0 Panicked))
-                    | Some o =>
-                        Some {| ths := upd (ths s) t (with_pc th0 (Waiting i a));
-                                tbl := tbl s;
-                                heap := hset a {| ln := (ln o + 1)%Z; ltok := ltok o |} (heap s) |}
-                    end
-                end
-              else None
+          | Idle => lock_call s t {| tpc := Idle; tdone := d; tbad := b; tchk := None; tret := RNone |} i
+          | _ => None
+          end
+      | None => None
+      end
+  | ACheck t i d b v =>                                            (* integrity.go:68 / 157 *)
+      match nth_error (ths s) t with
+      | Some th =>
+          match tpc th with
+          | Idle => lock_call s t {| tpc := Idle; tdone := d; tbad := b; tchk := Some v; tret := RNone |} i
           | _ => None
           end
       | None => None
@@ -208,7 +260,7 @@ Definition step (s : state) (a : action) : option state :=
   | ALockRefused t =>                                              (* l.84-87 / l.115-118 *)
       match nth_error (ths s) t with
       | Some th => match tpc th with
-                   | Idle => Some (set_th s t {| tpc := Idle; tdone := false; tbad := false; tret := RMgrErr |})
+                   | Idle => Some (set_th s t {| tpc := Idle; tdone := false; tbad := false; tchk := None; tret := RMgrErr |})
                    | _ => None
                    end
       | None => None
@@ -216,7 +268,7 @@ Definition step (s : state) (a : action) : option state :=
   | ACtxDone t =>
       match nth_error (ths s) t with
       | Some th => match tpc th with
-                   | Waiting _ _ => Some (set_th s t {| tpc := tpc th; tdone := true; tbad := tbad th; tret := tret th |})
+                   | Waiting _ _ => Some (set_th s t {| tpc := tpc th; tdone := true; tbad := tbad th; tchk := tchk th; tret := tret th |})
                    | _ => Some s     (* the call already returned (or is past its select): no effect *)
                    end
       | None => None
@@ -285,6 +337,24 @@ Definition step (s : state) (a : action) : option state :=
           end
       | None => None
       end
+  | ABody t =>                                                     (* integrity.go:74-148 / 163-237; no lock operation *)
+      match nth_error (ths s) t with
+      | Some th =>
+          match tpc th with
+          | Checking i v => Some (set_th s t (with_pc th (Deferred i (if v then RNil else RMgrErr))))
+          | _ => None
+          end
+      | None => None
+      end
+  | ADeferUnlock t =>                                              (* integrity.go:72 / 161, run at return *)
+      match nth_error (ths s) t with
+      | Some th =>
+          match tpc th with
+          | Deferred i r => if mutex_free s then unlock_cs s t th i r else None
+          | _ => None
+          end
+      | None => None
+      end
   | ASendDone t =>
       match nth_error (ths s) t with
       | Some th =>
@@ -305,7 +375,16 @@ Definition step (s : state) (a : action) : option state :=
       end
   end.
 
-Definition idle_thread : thread := {| tpc := Idle; tdone := false; tbad := false; tret := RNone |}.
+(* Unlock(i) called by session t whatever it is doing (a caller that does not hold i: developer
+   error, e.g. a second release of the same hold).  Not a step of the system: no code in
+   host/contracts does it (Proofs2.v); this is what lock.go:33-46 would do. *)
+Definition stray_unlock (s : state) (t : nat) (i : cid) : option state :=
+  match nth_error (ths s) t with
+  | Some th => if mutex_free s then unlock_cs s t th i (tret th) else None
+  | None => None
+  end.
+
+Definition idle_thread : thread := {| tpc := Idle; tdone := false; tbad := false; tchk := None; tret := RNone |}.
 Definition init (k : nat) : state := {| ths := repeat idle_thread k; tbl := []; heap := [] |}.
 
 (* runs of the transition system *)
@@ -322,7 +401,7 @@ Fixpoint run (s : state) (l : list action) : option state :=
    model computes every quiescent state that some interleaving of those external actions
    (each exactly once) with any number of internal steps can end in. *)
 Definition internal_actions (t : nat) : list action :=
-  [ARecv t; ACancelChosen t; ACancelCommit t; AErrUnlock t; ASendDone t].
+  [ARecv t; ACancelChosen t; ACancelCommit t; AErrUnlock t; ABody t; ADeferUnlock t; ASendDone t].
 
 Definition enabled_internal (s : state) : list state :=
   flat_map (fun t => flat_map (fun a => match step s a with Some s' => [s'] | None => [] end)
@@ -363,7 +442,7 @@ Definition stat_of (th : thread) : tstat :=
   | Idle => match tret th with RCtxErr => SCtxErr | RMgrErr => SMgrErr | _ => SIdle end
   | Holding i => SHold i
   | Waiting i _ => SWait i
-  | Cancelling _ _ | Releasing _ => STransient
+  | Cancelling _ _ | Releasing _ | Checking _ _ | Deferred _ _ => STransient
   | Blocked _ _ => SBlocked
   | Panicked => SPanicked
   end.
@@ -398,21 +477,30 @@ Definition obs_eqb (a b : obs) : bool :=
   list_eqb tstat_eqb (fst a) (fst b) && list_eqb row_eqb (snd a) (snd b).
 
 (* structural equality of states, to keep the candidate set small *)
+Definition ret_eqb (a b : ret) : bool :=
+  match a, b with
+  | RNone, RNone | RNil, RNil | RCtxErr, RCtxErr | RMgrErr, RMgrErr => true
+  | _, _ => false
+  end.
 Definition pc_eqb (p q : pc) : bool :=
   match p, q with
   | Idle, Idle | Panicked, Panicked => true
   | Waiting i a, Waiting j b | Cancelling i a, Cancelling j b | Blocked i a, Blocked j b =>
       ((i =? j)%N && addr_eqb a b)%bool
   | Holding i, Holding j | Releasing i, Releasing j => (i =? j)%N
-  | _, _ => false
-  end.
-Definition ret_eqb (a b : ret) : bool :=
-  match a, b with
-  | RNone, RNone | RNil, RNil | RCtxErr, RCtxErr | RMgrErr, RMgrErr => true
+  | Checking i v, Checking j w => ((i =? j)%N && Bool.eqb v w)%bool
+  | Deferred i r, Deferred j q =>
+      ((i =? j)%N && ret_eqb r q)%bool
   | _, _ => false
   end.
 Definition thread_eqb (a b : thread) : bool :=
-  pc_eqb (tpc a) (tpc b) && Bool.eqb (tdone a) (tdone b) && Bool.eqb (tbad a) (tbad b) && ret_eqb (tret a) (tret b).
+  pc_eqb (tpc a) (tpc b) && Bool.eqb (tdone a) (tdone b) && Bool.eqb (tbad a) (tbad b)
+  && match tchk a, tchk b with
+     | None, None => true
+     | Some v, Some w => Bool.eqb v w
+     | _, _ => false
+     end
+  && ret_eqb (tret a) (tret b).
 Definition state_eqb (a b : state) : bool :=
   list_eqb thread_eqb (ths a) (ths b)
   && list_eqb (fun x y => ((fst x =? fst y)%N && addr_eqb (snd x) (snd y))%bool) (tbl a) (tbl b)
@@ -427,9 +515,12 @@ Fixpoint dedup (l : list state) : list state :=
 Definition action_eqb (a b : action) : bool :=
   match a, b with
   | ALock t i d x, ALock u j e y => (Nat.eqb t u && (i =? j)%N && Bool.eqb d e && Bool.eqb x y)%bool
+  | ACheck t i d x v, ACheck u j e y w =>
+      (Nat.eqb t u && (i =? j)%N && Bool.eqb d e && Bool.eqb x y && Bool.eqb v w)%bool
   | ALockRefused t, ALockRefused u | ACtxDone t, ACtxDone u | AUnlock t, AUnlock u
   | ARecv t, ARecv u | ACancelChosen t, ACancelChosen u | ACancelCommit t, ACancelCommit u
-  | AErrUnlock t, AErrUnlock u | ASendDone t, ASendDone u => Nat.eqb t u
+  | AErrUnlock t, AErrUnlock u | ABody t, ABody u | ADeferUnlock t, ADeferUnlock u
+  | ASendDone t, ASendDone u => Nat.eqb t u
   | _, _ => false
   end.
 Definition node_eqb (a b : node) : bool :=
